@@ -1,6 +1,7 @@
 import Pycoin.Model.Sign
 import Pycoin.Model.RFC6979
 import Pycoin.Gen.Curves
+import Pycoin.Model.Sighash
 /-!
 C05 — the signer's `Crypto` parameter instantiated with the C01/C02 models of `secp256k1_generator`
 (RFC 6979 nonces with SHA-256, blinding factor 0: the result does not depend on it, C02).
@@ -14,5 +15,14 @@ def secp256k1Crypto : Crypto :=
     sign := RFC6979.sign c 0
     verify := Curve.verify c 0
     secToPair := secToPublicPair c }
+
+/-- the signer's `signature_for_hash_type_f` of input `idx` computed by C04's model (`Model/Sighash.lean`): the BIP143
+closure of `_make_witness_sighash_f` when `witness`, else the closure of `_make_sighash_f`; no signature is removed from the
+script code at signing time (`sig_blobs = []`).  `none` = `ScriptError` (any failure of the digest function). -/
+def modelSighash (c : Coin) (tx : Tx) (us : List (Option TxOut)) (idx : Nat) (witness : Bool) (code : Bytes) : Digest :=
+  fun ht =>
+    match (if witness then Sighash.witnessSighashF c tx us code [] idx ht else Sighash.sighashF c tx us code [] idx ht) with
+    | .ok z => some (z : Int)
+    | .error _ => none
 
 end Pycoin.Sign
